@@ -96,6 +96,21 @@ class Monitor:
             ctx.violation("C06|%s|%s|%s|%s" % (self.shape, self.leaf, _opkey(op), "marks" if marks else what),
                           "after %s, %s raised %r but the configuration changed at %s" % (hist, op, outcome[1], diffs or "(identity of a nested configuration)"),
                           self.case(hist, op), size=len(hist))
+            return
+        # "observably unchanged" includes what the configuration does next: the same operation, tried again, is
+        # rejected again and still changes nothing
+        ctx.transitions += 1
+        try:
+            W.apply_op(w, op)
+            again = None
+        except Exception as exc:  # noqa
+            again = exc
+        if again is None:
+            ctx.violation("C06|%s|%s|%s|accepted-on-retry" % (self.shape, self.leaf, _opkey(op)),
+                          "after %s, %s raised %r; the same operation tried again was accepted" % (hist, op, outcome[1]), self.case(hist, op), size=len(hist))
+        elif W.snapshot(w.cfg, with_ids=True) != before_ids:
+            ctx.violation("C06|%s|%s|%s|changed-on-retry" % (self.shape, self.leaf, _opkey(op)),
+                          "after %s, %s raised twice (%r) and the second attempt changed the configuration" % (hist, op, again), self.case(hist, op), size=len(hist))
 
 
 def run_job(job, ctx):
@@ -378,7 +393,7 @@ def _includes(job, ctx):
         for where in ("root", "nested", "chained"):
             for fault, path in (("missing", os.path.join(tmp, "nope.inc")), ("directory", os.path.join(tmp, "adir")), ("unreadable", secret),
                                 ("missing-relative", "nope-rel.inc"), ("unparseable", os.path.join(tmp, "garbage.inc"))):
-                for prior in ("fresh", "assigned", "dynamic", "env"):
+                for prior in ("fresh", "assigned", "dynamic", "env", "include-set"):
                     if only is not None and only != [fmt, where, fault, prior]:
                         continue
                     real_open(os.path.join(tmp, "garbage.inc"), "wb").write(b"\x00\xff{{{<<not a document")
@@ -415,6 +430,15 @@ def _includes(job, ctx):
                     if prior == "env":
                         cfg.sub.x = 8
                         os.environ["C06ENV_X"] = "4"          # ... and the environment has moved on as well
+                    if prior == "include-set":
+                        # the include fields already hold the name of a good file (assigned, or left by an earlier load)
+                        held = os.path.join(tmp, "held-%s.inc" % fmt)
+                        real_open(held, "wb").write(cc.ConfigFormat.get(fmt).dumps(None, {"y": "held"}))
+                        if where in ("root", "chained"):
+                            cfg.include = held
+                        if where in ("nested", "chained"):
+                            cfg.sub.include = held
+                        cfg.y = "held"
                     if prior == "dynamic":        # fields the configuration gained on the fly, which the document does not name
                         cfg.extra = 42
                         cfg.sub.more = [1, 2]
